@@ -20,7 +20,7 @@
   R30h  a `println!(..);` statement is dropped (the port's read_dir prints every entry to stdout; stdout is not part of any property)
   R30j  an async lock acquisition `h.read().await` / `h.write().await` (async_std RwLock) reads `h.read().unwrap()` / `h.write().unwrap()`, and
         `futures::executor::block_on(h.write())` likewise: this is the shape rule R4 (lock cell store-passing) knows; the async lock cannot be poisoned
-  R30k  the write handle's poll delegations: `Pin::new(&mut x)` -> `(&mut x)` (pinning an `Unpin` value is the identity); `c.poll_write(cx, buf)` /
+  R30k  the write handle's poll delegations: `Pin::new(&mut x)` / `Pin::new(x)` -> `(&mut x)` / `(x)` (pinning an `Unpin` value is the identity); `c.poll_write(cx, buf)` /
         `c.poll_flush(cx)` / `c.poll_close(cx)` on the inner async Cursor -> `verif_cursor_poll_write(c, buf)` / `..._flush(c)` / `..._close(c)`
         (assumed: async_std's Cursor wraps std's and its polls are the blocking std calls inside `Poll::Ready`); `cx.waker().wake_by_ref();` is dropped
         (wakers are scheduling, not behaviour: a lost wake-up is not detectable here); `match self.fs.try_write() { Some(mut handle) => {..} None => {..} }`
@@ -234,9 +234,9 @@ def erase(src):
         counts['R30i'] += k
     # R30k: the write handle's poll delegations
     k_total = 0
-    text, k = re.subn(r'\bPin::new\(\s*&mut\s+([A-Za-z_][A-Za-z0-9_.]*)\s*\)', r'(&mut \1)', text)
+    text, k = re.subn(r'\bPin::new\(\s*((?:&mut\s+)?[A-Za-z_][A-Za-z0-9_.]*)\s*\)', r'(\1)', text)
     k_total += k
-    text, k = re.subn(r'\b([a-z_][A-Za-z0-9_]*)\.poll_(write|flush|close)\(\s*cx\s*(,\s*)?', r'verif_cursor_poll_\2(\1\3', text)
+    text, k = re.subn(r'(\((?:&mut\s+)?[A-Za-z_][A-Za-z0-9_.]*\)|\b[a-z_][A-Za-z0-9_]*)\.poll_(write|flush|close)\(\s*cx\s*(,\s*)?', r'verif_cursor_poll_\2(\1\3', text)
     k_total += k
     text, k = re.subn(r'\bcx\.waker\(\)\.wake_by_ref\(\);', '', text)
     k_total += k
